@@ -2019,8 +2019,40 @@ def emission_stats(em) -> dict:
 
 
 # ------------------------------------------------------------------------------------- runtimes
+_REMOTE = [None]
+
+
+def _remote():
+    """The onnxruntime child process (harness/lib_ort_worker.py), unless C01_ORT_INPROCESS=1 or it cannot start."""
+    import os
+
+    if os.environ.get("C01_ORT_INPROCESS") == "1":
+        return None
+    if _REMOTE[0] is None:
+        try:
+            from harness.lib_ort_worker import RemoteOrt
+
+            r = RemoteOrt()
+            r._start()
+            _REMOTE[0] = r
+            import atexit
+
+            atexit.register(r.close)
+        except Exception:  # noqa: BLE001
+            _REMOTE[0] = False
+    return _REMOTE[0] or None
+
+
+def ort_crashes() -> int:
+    return _REMOTE[0].crashes if _REMOTE[0] else 0
+
+
 def ort_session(model):
-    """onnxruntime session with graph optimisations disabled: ('ok', session) or ('load-err', message)."""
+    """onnxruntime session with graph optimisations disabled: ('ok', session) or ('load-err', message).
+    The session lives in a child process: a native crash of onnxruntime is a 'load-err' / 'run-err' of that case."""
+    rem = _remote()
+    if rem is not None:
+        return rem.load(model.SerializeToString())
     import onnxruntime as ort
 
     so = ort.SessionOptions()
@@ -2035,6 +2067,8 @@ def ort_session(model):
 
 
 def ort_run(sess, feeds):
+    if isinstance(sess, tuple):  # handle of a session in the child process
+        return _REMOTE[0].run(sess, feeds)
     try:
         return "ok", sess.run(None, feeds)
     except Exception as e:  # noqa: BLE001
